@@ -320,6 +320,21 @@ mut('queue-write-drops-when-full', 'ObjectQueue.cpp', [["    /* push data */\n  
     ['C16'], ['Q5|write'], 'an object written while the queue is aborted and full is deleted instead of delivered')
 mut('queue-eof-by-difference', 'ObjectQueue.cpp', [["        (m_tellg >= m_fileSize);", "        ((m_fileSize - m_tellg) == 0);"]],
     ['C16'], ['Q4|read'], 'a declared size below the get count wraps: the reader is never released')
+# ---- round-5 benign twins turned bad: the generalised rules must still see the difference
+mut('size-guard-helper-too-weak', 'File.cpp', [["void File::uncompressedFile2ReadWriteQueue() {\n    /* identify type */", "/** an object cannot have a negative size */\nstatic bool objectSizeCoversHeader(const ObjectHeaderBase & ohb) {\n    return ohb.objectSize >= 0;\n}\n\nvoid File::uncompressedFile2ReadWriteQueue() {\n    /* identify type */"],
+                                            ["    if (ohb.objectSize < ohb.calculateHeaderSize()) {", "    if (!objectSizeCoversHeader(ohb)) {"]],
+    ['C10', 'C09'], ['T1|', 'S2|'], 'the extracted size guard admits every size: an unknown object declaring size 0 is skipped by 0 bytes and found again forever')
+mut('named-predicate-without-abort', 'ObjectQueue.cpp', [["    tellpChanged.wait(lock, [&] {\n        return\n        m_abort ||\n        !m_queue.empty() ||\n        (m_tellg >= m_fileSize);\n    });", "    const auto dataOrEnd = [&] {\n        return\n        !m_queue.empty() ||\n        !(m_tellg < m_fileSize);\n    };\n    tellpChanged.wait(lock, dataOrEnd);"]],
+    ['C06', 'C16'], ['K2|'], 'the named wait predicate lost its abort atom: abort() cannot release the reader')
+mut('finder-end-inclusive', 'UncompressedFile.cpp', [["            (pos >= logContainer->filePosition) &&\n            (pos < logContainer->uncompressedFileSize + logContainer->filePosition);", "            !(pos < logContainer->filePosition) &&\n            (logContainer->uncompressedFileSize + logContainer->filePosition >= pos);"]],
+    ['C15', 'C10'], ['B7|logContainerContaining|postcondition'], 'the position one behind a container is attributed to it: a copy of 0 bytes, then an endless loop')
+mut('pad-buffer-too-small', 'Most150MessageFragment.cpp', [["    /* skip padding */\n    os.skipp(objectSize % 4);\n}", "    /* write padding */\n    const char padding[2] = { 0, 0 };\n    os.write(padding, objectSize % 4);\n}"]],
+    ['C14'], ['B2|'], 'up to three bytes are written out of a two-byte local buffer: stack contents reach the file')
+mut('pad-buffer-not-zero', 'Most150MessageFragment.cpp', [["    /* skip padding */\n    os.skipp(objectSize % 4);\n}", "    /* write padding */\n    const char padding[4] = { 0, 0, 0, 1 };\n    os.write(padding, objectSize % 4);\n}"]],
+    ['C02', 'C04'], ['L'], 'the padding is not written as zeros')
+mut('end-of-queue-state-without-eof', 'ObjectQueue.cpp', [["template<typename T>\nObjectQueue<T>::~ObjectQueue() {", "namespace {\nconst std::ios_base::iostate endOfQueueState = std::ios_base::failbit;\n}\n\ntemplate<typename T>\nObjectQueue<T>::~ObjectQueue() {"],
+                                                       ["        m_rdstate = std::ios_base::eofbit | std::ios_base::failbit;", "        m_rdstate = endOfQueueState;"]],
+    ['C16'], ['Q2|read|empty'], 'the named end state lacks eofbit: the end of the queue is reported as a failure, never as end-of-file')
 mut('objecttype-set-in-write', 'CanMessage.cpp', [["void CanMessage::write(AbstractFile & os) {\n    ObjectHeader::write(os);", "void CanMessage::write(AbstractFile & os) {\n    objectType = ObjectType::CAN_MESSAGE;\n    ObjectHeader::write(os);"]],
     ['C17'], ['D5|objectType|never-reassigned'], 'the encoder overwrites the type code the object carries')
 mut('file-write-diverts-restore-points', 'File.cpp', [["void File::write(ObjectHeaderBase * ohb) {\n", "void File::write(ObjectHeaderBase * ohb) {\n    if (ohb->objectType == ObjectType::Unknown115) {\n        delete ohb;\n        return;\n    }\n"]],
@@ -475,6 +490,18 @@ def main():
             f_ = 'agent4-%s-r%d.patch' % (k_, i_)
             if os.path.exists(os.path.join('/verif/benign', f_)):
                 ext.append({'name': 'agent4-%s-r%d' % (k_, i_), 'patch': f_, 'properties': list(ALLP),
+                            'note': (notes.get('r%d' % i_, {}).get('what') or '')[:200], 'origin': 'sub-agent'})
+    # fifth batch (after round 5: comparison rewrites, De Morgan, reordered independent statements, named predicates / constants,
+    # helpers reachable from the destructor only, local references, a zero-initialised local pad buffer); all properties
+    for k_ in ('f', 'u', 'q', 'h', 'c', 'm'):
+        notes = {}
+        np_ = os.path.join('/verif/benign', 'agent5-%s-notes.json' % k_)
+        if os.path.exists(np_):
+            notes = {n_['name']: n_ for n_ in json.load(open(np_))}
+        for i_ in range(1, 7):
+            f_ = 'agent5-%s-r%d.patch' % (k_, i_)
+            if os.path.exists(os.path.join('/verif/benign', f_)):
+                ext.append({'name': 'agent5-%s-r%d' % (k_, i_), 'patch': f_, 'properties': list(ALLP),
                             'note': (notes.get('r%d' % i_, {}).get('what') or '')[:200], 'origin': 'sub-agent'})
     # hand-made multi-file variants kept as patches (benign/own-*.patch): checked against every property
     for f_ in sorted(os.listdir('/verif/benign')):
